@@ -115,6 +115,24 @@ pub fn generate(seed: u64, thorough: bool) -> Scenario {
         }
         threads.push(ops);
     }
+    // straggler shape (added after seeded change C10-7): the oldest batch of
+    // a thread stays open while 33-48 younger ones are created, filled and
+    // submitted, so the hold-back heap of the commit thread grows far beyond
+    // the handful of entries the other shapes reach
+    if r.chance(1, 10) {
+        let n = r.range(33, 48) as u32;
+        let mut ops = vec![TOp::Create(0)];
+        val += 1;
+        ops.push(TOp::Write(0, W::Sm(0, val)));
+        for b in 1..=n {
+            ops.push(TOp::Create(b));
+            val += 1;
+            ops.push(TOp::Write(b, W::Sm(r.below(u64::from(keys)) as u32, val)));
+            ops.push(TOp::Submit(b));
+        }
+        ops.push(TOp::Submit(0));
+        threads[0] = ops;
+    }
     Scenario {
         seed,
         n_ser: r.range(1, 4) as usize,
